@@ -13,20 +13,24 @@ CLAIMS = {
          "interpreted over their abstract child domain (no redundant node, canonical complement form, level agreement); "
          "probe-chain accounting of the open-addressing unique table. Does not decide the 'iff' over histories.",
          "MIR field/dominance rules + abstract interpretation of HIR reduce tables", "3.8, 3.3, 4 C01"),
- "C15": ("E-DDDMP + E-UNITS + E-LIN: writer/reader agreement as finite constant tables: header key set inclusion, byte-class "
+ "C15": ("E-DDDMP(.strict,.taint,.deadcheck,.prefix) + E-UNITS + E-LIN: writer/reader agreement as finite constant tables: header key set inclusion, byte-class "
          "coverage of the name sanitisers vs the reader's separators (all 256 bytes), escape table and binary node-code layout "
          "mutually inverse (exhaustive); var/level unit discipline of the exporter/importer; no edge leaked on importer error "
-         "paths. Round-trip equality and totality on malformed input are value-level and not decided.",
+         "paths; MIR taint analysis of the importer: no number decoded from the file reaches an index, subtraction or allocation size "
+         "without a dominating range check or checked/clamping operation; id-list sortedness checks are strict; no overflow check relies "
+         "on checked_shl; prefix tests have the file buffer as receiver. Round-trip equality and totality beyond these sinks are not decided.",
          "constant-table extraction from HIR + exhaustive evaluation; unit analysis", "3.9, 4 C15"),
  "C19": ("E-FFI + E-LIN + E-UNITS on oxidd-ffi-c: C symbol <-> Rust operation wiring and operand order, equal export sets of the "
          "three files, from_raw only under ManuallyDrop::new (borrow) or drop (unref), no entry point but the documented one "
          "consumes handles and that one does so unconditionally, failure -> INVALID mapping, operand validation in op1/op2/op3, no "
-         "exported function returns one of its argument handles except the reference-taking *_ref functions. "
+         "exported function returns one of its argument handles except the reference-taking *_ref functions, parallel C arrays are "
+         "zipped before filtering. "
          "Call-sequence equivalence with the Rust API is not decided.",
          "HIR/MIR who-may-call and typestate rules", "3.7, 4 C19"),
- "C16": ("E-VNM + E-EVENT + E-UNITS: the name map's push/insert, displace/remove and free discipline on every path; the "
+ "C16": ("E-VNM(.lockstep,.clone) + E-EVENT + E-UNITS: the name map's push/insert, displace/remove and free discipline on every path; the "
          "add_vars* brackets of both managers incl. the scope guard that keeps level table, var/level map and name map the same "
-         "length on every exit. The bijection over call sequences as behaviour is not decided.",
+         "length on every exit; add_named appends exactly one name per variable number drawn; Clone allocates fresh strings. The "
+         "bijection over call sequences as behaviour is not decided.",
          "MIR dominance / provenance rules", "3.8, 3.5, 4 C16"),
  "C20": ("E-CFG: the configuration corners are type-checked under the fact extractor (quick: default + 3 extreme corners, "
          "thorough: all 8) and E-LIN/E-WRAP (+E-CACHE/E-EVENT where a cache exists) are re-run on each; sibling agreement of the two "
@@ -34,7 +38,7 @@ CLAIMS = {
          "decided.", "type-checking the feature matrix + sibling comparison of HIR", "3.9, 4 C20"),
  "C17": ("E-RAW on linear_hashtbl::raw: inventory of writers of the free-slot counter, +1/-1 pairing with status stores, "
          "provenance of retain's successor-is-free flag, Drain's full sweep, counter assignment when the slot array is replaced, "
-         "probe-loop guards. Necessary conditions of `free <= #FREE slots` (termination of lookups, intact probe chains); set "
+         "probe-loop guards, Slot::clone keeps the status word. Necessary conditions of `free <= #FREE slots` (termination of lookups, intact probe chains); set "
          "semantics over operation sequences is not decided.",
          "MIR dataflow/dominance rules with a frozen writer table", "3.8, 4 C17"),
  "C02": ("E-TABLE.{bdd,bcdd,shortcut,step} + E-WRAP + E-UNITS + E-CACHE: the terminal/base-case table of all 8 BDD connectives and "
@@ -55,19 +59,21 @@ CLAIMS = {
          "substitute (simultaneity: swap tables) of BDD and BCDD interpreted on structured operands and cubes over three modelled "
          "levels and compared with the fold of cofactors / the cofactor / the simultaneous substitution. Decides tag/dualisation "
          "plumbing, unit discipline and the inductive step; not substitute_prepare's table construction nor the induction itself.", "abstract interpretation of HIR dispatch tables", "3.4, 4 C04"),
- "C05": ("E-LIN + E-FREELIST + E-CANON.swap + E-WHO + E-EVENT.gc-order: edge linearity on every non-unwind path of every function body "
+ "C05": ("E-LIN + E-FREELIST(.count,.term) + E-CACHE.dm + E-CANON.swap + E-WHO + E-EVENT.gc-order: edge linearity on every non-unwind path of every function body "
          "(drop-elaborated MIR) plus the vetted-destructor table; thread-local free lists and node-count deltas are handed to the "
          "shared store by move only; level_swap releases a node's edges before unlinking children; frozen caller sets of the "
-         "node-removal primitives and their gates; Manager::gc sweeps all inner-node levels before the terminal table. Necessary conditions of exact reference counts: no owned edge is dropped by the "
+         "node-removal primitives and their gates; Manager::gc sweeps all inner-node levels before the terminal table; the apply cache (uncounted edges) stays locked and empty "
+         "between pre_gc and post_gc; node-count bookkeeping (failed allocation undone, adjusted delta stored) and the terminal "
+         "free list written back after a sweep. Necessary conditions of exact reference counts: no owned edge is dropped by the "
          "compiler instead of being released through the manager, on any path incl. every `?`/out-of-memory path; no slot is on two "
          "free lists. Exactness over histories is not decided.",
          "MIR drop-terminator typestate lint (rustc_private driver) + move-only dataflow + who-may-call", "3.1, 3.8, 3.5, 4 C05"),
- "C03": ("E-UNITS + E-UNITS.pre + E-TABLE.reduce + E-CANON.swap + E-WHO + E-RAW: unit analysis (VarNo vs LevelNo, both u32 aliases) over all bodies of the managers, "
+ "C03": ("E-UNITS + E-UNITS.pre + E-TABLE.reduce + E-CANON.swap + E-WHO + E-RAW + E-PERM: unit analysis (VarNo vs LevelNo, both u32 aliases) over all bodies of the managers, "
          "oxidd-reorder and the rules crates, seeded from the declared signatures; inside level_swap, stale stored level numbers "
          "vs positions; all 12 reduce functions interpreted (no redundant node, BCDD then-edge untagged, node inserted at the level "
          "it is created for); set_child before insert and relabel before insert in level_swap; only oxidd-reorder may call the "
          "level-invariant-breaking primitives; probe-chain integrity of the per-level open-addressing table (a cut chain "
-         "yields a second node with identical children). Necessary for 'every node is listed in the level it reports' and 'children on lower levels' after a "
+         "yields a second node with identical children); the loop invariant of set_var_order's level-permutation step. Necessary for 'every node is listed in the level it reports' and 'children on lower levels' after a "
          "reordering; does not decide uniqueness/reducedness over histories.",
          "dimension (unit) analysis over type-checked HIR + HIR table interpretation + who-may-call", "3.10, 3.3, 3.5, 4 C03"),
  "C06": ("E-CACHE + E-CACHE.dm + E-CACHE.substid + E-EVENT + E-TABLE tags: get/add key pairing, memoised value = returned value, injective and "
@@ -77,12 +83,14 @@ CLAIMS = {
          "substitute) come from one atomic counter wider than the id, range-checked before narrowing. Decides 'never served for another key' "
          "and 'does not outlive gc/reorder' structurally, not eviction-independence as behaviour.",
          "HIR key-table extraction + MIR dominance/post-dominance rules", "3.2, 3.5, 4 C06"),
- "C12": ("E-SAT + E-CARRY + E-POST + E-EVENT: all MIR paths of SatCountCache::clear_if_invalid re-establish both "
+ "C12": ("E-SAT(.scale) + E-CARRY + E-POST(.mapusers) + E-EVENT: all MIR paths of SatCountCache::clear_if_invalid re-establish both "
          "label fields and clear on mismatch; clear_if_invalid dominates the counting recursion in every sat_count_edge; "
          "gc_count is bumped by gc and reorder; E-SAT: sat_count_edge::inner (BDD, BCDD, ZBDD) interpreted with symbolic numbers "
          "(terminal base cases, count(node) = (count(c0)+count(c1)) >> 1 over the cofactors seen through the complement tag, "
          "memoisation under the looked-up key, distinct keys for an edge and its complement); E-CARRY: no computed carry of "
-         "Natural's multi-digit addition is overwritten unread. The exactness of the number types beyond that is not decided.",
+         "Natural's multi-digit addition is overwritten unread; subtractions involving sat_count_edge's `vars` are guarded and no "
+         "number type uses checked_shl as an overflow test; SatCountCache::map is touched by its owner and sat_count_edge::inner only. "
+         "The exactness of the number types beyond that is not decided.",
          "HIR interpretation with symbolic numbers + MIR path enumeration / liveness", "3.5, 3.11, 4 C12"),
  "C07": ("E-LOCK + E-FREELIST + E-CACHE.dm + E-EVENT (+E-LIN/E-WRAP on the parallel code): lock-order acyclicity over all lock classes, "
          "minimal memory orderings of the rc / lock protocols, rc re-read under the level lock, Send/Sync bounds of every unsafe "
@@ -91,37 +99,44 @@ CLAIMS = {
          "managers, MT wrappers reach the same algorithm instances. These are necessary conditions (no deadlock by lock order, the "
          "stated happens-before edges exist); equivalence to a sequential execution over schedules is NOT decided.",
          "lock-order graph + atomic-ordering table + MIR dataflow rules", "3.6, 4 C07"),
- "C08": ("E-UNITS.pre + E-UNITS + E-LIN + E-CANON.swap + E-WHO + E-PERM on oxidd-reorder: level_swap's stale-number discipline (compare stored numbers with "
+ "C08": ("E-UNITS.pre + E-UNITS + E-LIN + E-CANON.swap + E-WHO + E-PERM + E-TABLE.skip + E-EVENT on oxidd-reorder: level_swap's stale-number discipline (compare stored numbers with "
          "_pre parameters only, create/relabel nodes with the stale number of their level), no var/level mix-ups, no owned edge "
          "dropped by the compiler, children rewritten before re-insertion (hash under the final key), unchecked insertions "
          "only, gated entry points; the level-permutation loop of set_var_order_common advances only on the element-in-place edge "
-         "(loop invariant) and swaps its three tables together. Does not decide that functions are preserved.",
+         "(loop invariant) and swaps its three tables together; DiagramRules::skipped_cofactor of every kind agrees with the kind's "
+         "semantics of a skipped level (zero-suppressed for ZBDDs) and level_swap uses it; Manager::reorder brackets the closure "
+         "and bumps the gc epoch on every path. Does not decide that functions are preserved.",
          "dimension (unit) analysis over HIR + MIR drop lint + ordering/who-may-call rules", "3.10, 3.1, 3.8, 3.5, 4 C08"),
- "C13": ("E-TABLE.pick + E-UNITS: one step of pick_cube_dd_edge / pick_cube_dd_set_edge (BDD and BCDD) interpreted over a "
+ "C13": ("E-TABLE.pick + E-UNITS + E-POST.mapusers: one step of pick_cube_edge / pick_cube_dd_edge / pick_cube_dd_set_edge (BDD and BCDD) interpreted over a "
          "structured abstract node: a forced branch (one child = false) is taken without consulting the choice, otherwise the choice "
          "/ the literal's polarity decides exactly once, the literal-set cursor advances past skipped literals; pick_cube's "
-         "level->variable conversions carry the declared units. Does not decide that the cube is an implicant, nor uniformity.",
+         "level->variable conversions carry the declared units; pick_cube_edge writes the cube entry of level_to_var(level) with the "
+         "branch taken; the count cache that weights pick_cube_uniform is read through sat_count_edge only. Does not decide that the "
+         "cube is an implicant, nor uniformity.",
          "abstract interpretation of HIR + dimension (unit) analysis", "3.3, 3.10, 4 C13"),
- "C14": ("E-LIN + E-OOM: E-LIN restricted to error exits: on every `?`/Err path of the rules crates, oxidd-dump, oxidd-reorder, the managers "
+ "C14": ("E-LIN + E-OOM + E-FREELIST(.count,.term) + E-EVENT.gc-order: E-LIN restricted to error exits: on every `?`/Err path of the rules crates, oxidd-dump, oxidd-reorder, the managers "
          "and the FFI crate no owned edge is dropped by the compiler, i.e. everything acquired is released through a guard or "
          "the manager; AllocResult is unwrapped only where allocation cannot fail (static terminals) and process::abort is reached only "
          "from reviewed sites (2 recorded known findings: level_swap and ZBDDCache::post_reorder_mut abort on OOM); gc sweeps terminals "
-         "after all levels (one collection frees what a retry needs). Does not decide "
+         "after all levels (one collection frees what a retry needs), a failed allocation does not stay counted, the terminal free "
+         "list is written back after a sweep. Does not decide "
          "state validity after failure.",
          "MIR drop-terminator typestate lint + call-site inventory", "3.1, 3.9, 4 C14"),
- "C09": ("E-WRAP + E-TABLE.{reduce,shortcut,step}(zbdd) + E-UNITS + E-CACHE: the BooleanVecSet wrappers and the Boolean view of ZBDDs "
+ "C09": ("E-WRAP + E-TABLE.{reduce,shortcut,step,skip}(zbdd) + E-UNITS + E-CACHE: the BooleanVecSet wrappers and the Boolean view of ZBDDs "
          "are interpreted symbolically and must denote the set operation they are named for (incl. subset::<VAL> tags and diff "
          "operand order); the zero-suppression reduce functions and the shortcut prefixes of union/intsec/diff/symm_diff are "
          "interpreted against set algebra; units and cache key pairing of the zbdd rules crate; E-TABLE.step: the recursive step of "
          "union/intsec/diff/symm_diff, subset0/subset1/change and apply_ite interpreted under zero-suppressed semantics in every "
-         "level configuration. restrict of the Boolean view, make_node and consistency after add_vars are not decided.",
+         "level configuration, incl. restrict of the Boolean-function view (cubes with positive / negative / don't-care levels); "
+         "skipped-level cofactors are zero-suppressed. make_node and consistency after add_vars beyond the cache events are not decided.",
          "abstract interpretation of HIR wrappers", "3.4, 4 C09"),
  "C10": ("E-TABLE + E-WRAP: mtbdd::terminal_bin enumerated over {NaN,0,1,c1,c2,x,y}^2 for 6 operators and all comparison "
          "outcomes, result term compared with the pointwise operator on a grid of extended reals with NaN (neutral/absorbing "
          "shortcuts, operand swaps, operator tag used for recursion and caching); PseudoBooleanFunction wrappers wired to the "
          "operator they are named for; I64 Add/Sub/Mul/Div interpreted over sign classes with checked_* = None exactly on "
          "overflow-capable sign pairs (saturation to the infinity of the exact result's sign); cache key pairing; E-TABLE.step: the "
-         "recursive step of apply_bin (6 operators, incl. terminal operands), apply_ite and restrict over extended reals with NaN.",
+         "recursive step of apply_bin (6 operators, incl. terminal operands), apply_ite and restrict over extended reals with NaN; "
+         "E-WHO: terminals are freed by Manager::gc only (the apply cache holds uncounted terminal edges).",
          "abstract interpretation of HIR case tables", "3.3, 3.4, 4 C10"),
  "C11": ("E-TABLE + E-WRAP: tdd::terminal_bin enumerated over {F,U,T,x,y}^2 for 8 operators and compared with the Kleene / "
          "Lukasiewicz tables named in the property; TVLFunction wrappers and default constant constructors (f/t/u) forward to "
